@@ -94,6 +94,7 @@ class _DeviceManagementConnection(ABC):
         "_data_endpoint_addr",
         "_disconnect_callback",
         "_heartbeat",
+        "_matches",
         "_pending",
         "_request_lock",
         "communication_channel",
@@ -124,6 +125,7 @@ class _DeviceManagementConnection(ABC):
         self._data_endpoint_addr: tuple[str, int] | None = None
         self._disconnect_callback: KNXIPTransport.Callback | None = None
         self._pending: asyncio.Future[CEMIFrame] | None = None
+        self._matches: Callable[[CEMIFrame], bool] | None = None
         self._request_lock = asyncio.Lock()
         self._heartbeat = ConnectionHeartbeat(
             name="Device management connection",
@@ -329,6 +331,7 @@ class _DeviceManagementConnection(ABC):
                 asyncio.get_running_loop().create_future()
             )
             self._pending = pending
+            self._matches = matches
             try:
                 await self._send_request(cemi)
                 # The spec defines this timeout for the acknowledgement only;
@@ -366,6 +369,7 @@ class _DeviceManagementConnection(ABC):
                 raise
             finally:
                 self._pending = None
+                self._matches = None
 
     def _cemi_received(self, raw_cemi: bytes) -> None:
         """Handle a cEMI frame the server sent."""
@@ -391,6 +395,14 @@ class _DeviceManagementConnection(ABC):
                     logger.exception("Unexpected error in indication_callback")
             return
         if self._pending is not None and not self._pending.done():
+            if self._matches is not None and not self._matches(cemi):
+                # Not the awaited answer - e.g. the late answer to an earlier,
+                # timed out request. It must not complete the pending request,
+                # which would also pass for the server having accepted it.
+                logger.debug(
+                    "Discarding cEMI frame not answering the request: %s", cemi
+                )
+                return
             self._pending.set_result(cemi)
             return
         logger.debug("Received an unexpected cEMI frame: %s", cemi)
